@@ -31,7 +31,7 @@ O3 = ["none", "rev", "sub"]
 B2 = [False, True]
 M2 = ["median", "mean"]
 E3 = ["q", "std", "stderr"]
-BINS = ["auto", "n4", "nN", "e1", "e3"]
+BINS = ["auto", "n4", "nN", "e1", "e3", "eu"]      # eu: explicit, unequally spaced edges
 
 
 def configs(tier):
@@ -100,7 +100,7 @@ def exhaustive_configs(tier):
         add("XLg", False, Sizes=[2, 2, 2], MaxMapped=1, Orders=["none", "sub"], Joins=B2, Aggs=["all"], Methods=M2)
         add("XLx", False, Sizes=[2, 3], MaxMapped=1, XVar=True, Orders=O3, Joins=B2)
         add("XH2", False, Sizes=[2, 2, 2], Mode="heat", MaxMapped=1, Orders=O3, Aggs=["auto"])
-        add("XG2", False, Sizes=[2, 2, 2], Mode="hist", MaxMapped=2, Orders=["none", "sub"], Dens=B2, Bins=["auto", "n4", "e3"])
+        add("XG2", False, Sizes=[2, 2, 2], Mode="hist", MaxMapped=2, Orders=["none", "sub"], Dens=B2, Bins=["auto", "n4", "eu"])
     return L
 
 
@@ -210,6 +210,7 @@ def run(rep):
         "colour-coded heat maps (no palette): colour saturation must be strictly increasing in z over the figure; exact z only with a palette (QuadMesh array)",
         "histograms of inputs where every dim is mapped (nothing to bin over) and plots of entirely null data are outside the enumerated space",
         "data refinement: for 2 cases in 3 the variables are stored with their dims in a non-identity permutation of tuple(ds.dims) (same abstract dataset, same expectation)",
+        "data refinement: coordinate values of the non-x/y dims are stored ascending, descending or rotated (1/3 each, per dim); expectations are label based",
         "dims have <= 3 coordinates; the same dim is never mapped to two properties; markeredgecolor / text / err= are not explored",
     ]
     seed = int(rep.seed) % 100003        # keeps the hash arithmetic of Init inside 32 bits
@@ -294,6 +295,10 @@ def run(rep):
     rep.extra["by_mode"] = {m: sum(1 for c in cases if c["mode"] == m) for m in ("lines", "heat", "hist")}
     rep.extra["cases_with_permuted_storage"] = sum(
         1 for c in cases if ipr.storage_perm(c, len(c["sizes"])) != tuple(range(len(c["sizes"]))))
+    rep.extra["cases_with_unsorted_mapped_coordinate"] = sum(
+        1 for c in cases if any(
+            t and any(ipr.coord_rank(c, d, i) != i for d in t for i in range(1, c["sizes"][d - 1] + 1))
+            for t in c["pm"]))
     rep.extra["ties_skipped"] = sum(1 for _, (k, _, _) in res if k == "tie")
 
 
